@@ -330,6 +330,21 @@ func c10Stream(r *rngT, dn string, key []byte) []byte {
 				f = randRawFrame(r, 1, false)
 			}
 		}
+		if key != nil && r.Intn(4) == 0 {
+			// complete frames a keyed link must refuse as ONE parse error each, whatever bytes they contain (marker bytes
+			// included): a v1 frame, a v2 frame without signature; the frames after them are delivered
+			if r.bool() {
+				f = randRawFrame(r, 1, false)
+				stat("c10-v1-on-keyed-link")
+			} else {
+				stat("c10-unsigned-on-keyed-link")
+			}
+			if r.Intn(3) == 0 {
+				out = append(out, junk(r, 1+r.Intn(3))...)
+			}
+			out = append(out, refFrameBytes(f)...)
+			continue
+		}
 		if v2, ok := f.(*frame.V2Frame); ok && key != nil {
 			v2.IncompatibilityFlag = 1
 			v2.SignatureLinkID = r.byte()
